@@ -286,7 +286,13 @@ func (p *poller) readWriteLoop() {
 							if asyncReadEnabled {
 								c.AsyncRead()
 							} else {
-								for i := 0; i < g.MaxConnReadTimesPerEventLoop; i++ {
+								maxReadTimes := g.MaxConnReadTimesPerEventLoop
+								if ev.Events&epollEventsError != 0 {
+									// the peer has hung up and the connection is closed
+									// below: deliver everything it sent before that.
+									maxReadTimes = 1<<31 - 1
+								}
+								for i := 0; i < maxReadTimes; i++ {
 									pbuf := g.borrow(c)
 									bufLen := len(*pbuf)
 									rc, n, err := c.ReadAndGetConn(pbuf)
